@@ -60,6 +60,8 @@ class Check:
             pick, used = [], 0
             for g in groups:
                 c = cf(g)
+                if c > pure_budget // 8:
+                    continue                 # very large scenarios are validated with accelerators only
                 if used + c <= pure_budget:
                     pick.append(g)
                     used += c
